@@ -48,6 +48,16 @@ pub fn check_path(path: &str, res: &mut ShardResult, job: &str, allow_deep_panic
             return;
         }
     };
+    if std::str::from_utf8(got.as_bytes()).is_err() {
+        let bytes = got.as_bytes().to_vec();
+        std::mem::forget(got); // not a valid String; do not touch it further
+        res.violation(
+            "canon-produced-invalid-utf8",
+            || format!("canonicalize_path({:?}) produced the byte string {:?}, which is not UTF-8", path, bytes),
+            replay,
+        );
+        return;
+    }
     let expect = refcanon::canon(input);
     if got.as_bytes() != expect.as_slice() {
         res.violation(
